@@ -12,6 +12,13 @@ Binding A: TLC-exported (native bins, target bins, spectrum, exact expected valu
 Binding B: seeded random linear / logarithmic / constant-R grids snapped to a dyadic lattice, random
       target grids (gaps, overlaps, wider, narrower, outside), every target bin of every real call
       validated by TLC against the same operators + canary.
+Presentation (spec/Binning.tla part 4, spec/MC_BinPres.tla): the same bins handed over in every legal presentation --
+      integer / float storage of each array, widths as array / ONE scalar / omitted -- with TLC's exact values, the
+      slips "widthlike" / "outlike" refuted and a witness presentation per exposed slip always replayed.
+Call histories (spec/BinCalls.tla, spec/MC_BinCalls.tla, harness/fx_bincalls.py): ONE set of caller arrays and ONE
+      long-lived binner per TLC-generated sequence of calls; after every call the result is the statement's for the
+      values SUPPLIED, every array handed over is unchanged, and what earlier calls returned is unchanged; four design
+      mutants refuted, canary on the harness's own mutants of the real binners.
 """
 import itertools
 import math
@@ -19,7 +26,10 @@ import random
 
 import numpy as np
 
-from ..core import Machinery, frac, close, validate_trace
+from concurrent.futures import ThreadPoolExecutor
+
+from ..core import Machinery, frac, close, validate_trace, run_tlc
+from .. import fx_bincalls as BC
 
 REL = 1e-12
 LATTICES = [(100.0, 0.25), (7.0, 0.5), (2048.0, 4.0)]
@@ -94,7 +104,16 @@ def judge_flux(ctx, vec, lat, perm, mode):
     except Exception as ex:   # the quantifier covers these inputs: a crash is a violation
         ctx.verdict('overlap_weighted_mean', False, cls=cls, detail='exception %r' % ex, vector=meta)
         return
+    compare_flux(ctx, vec, got, cls, meta)
+
+
+def compare_flux(ctx, vec, got, cls, meta):
+    """every clause of the statement for one real call against TLC's exact values (one entry per sorted target bin)"""
     ctx.verdict('target_grid_sorted_with_widths', got['grid_ok'], cls=cls, detail='returned grid/widths', vector=meta)
+    if len(got['sp']) != len(vec['exp']) or (got['err'] is not None and np.shape(got['err']) != (len(vec['exp']),)):
+        ctx.verdict('overlap_weighted_mean', False, cls=cls, detail='returned shapes %r / %r for %d target bins'
+                    % (np.shape(got['sp']), None if got['err'] is None else np.shape(got['err']), len(vec['exp'])), vector=meta)
+        return
     const = len(set(vec['f'])) == 1
     for k, ex in enumerate(vec['exp']):
         g = float(got['sp'][k])
@@ -222,7 +241,184 @@ def run_multi_vectors(ctx, vecs, rng):
                 judge_native(ctx, vec, lat)
 
 
+# ----------------------------------------------------------------------------
+# presentation of the grids (spec/Binning.tla part 4, spec/MC_BinPres.tla)
+# ----------------------------------------------------------------------------
+PLAIN = dict(ck='float', wf='array', wk='float')
+PRES_X0 = (0.0, 96.0, 1000.0)          # whole numbers of storage units: integer centres stay integer
+VALKINDS = (('float', 'float'), ('int', 'float'), ('float', 'int'), ('int', 'int'))
+
+
+def _stored(values, kind, alt):
+    """the values in an array of the storage type the presentation names (TLC says when integer storage is legal);
+    alt: 32-bit integers, and the array is a column of a table (a strided view, as np.loadtxt(...)[:, k] is)"""
+    if kind == 'float':
+        a = np.array(values, dtype=float)
+    else:
+        iv = [int(round(x)) for x in values]
+        if any(float(a) != float(b) for a, b in zip(iv, values)):
+            raise Machinery('presentation: integer storage requested for %r' % (values,))
+        a = np.array(iv, dtype=np.int32 if alt else np.int64)
+    if alt:
+        table = np.zeros((len(a), 3), dtype=a.dtype)
+        table[:, 1] = a
+        a = table[:, 1]
+    return a
+
+
+def pres_side(bins, U, x0, side, alt):
+    """(centres, widths argument, widths as floats) of one side in the presentation `side`"""
+    c = [x0 + (lo + hi) / (2.0 * U) for lo, hi in bins]
+    w = [(hi - lo) / float(U) for lo, hi in bins]
+    centres = _stored(c, side['ck'], alt)
+    if side['wf'] == 'omitted':
+        wa = None
+    elif side['wf'] == 'scalar':
+        if len(set(w)) != 1:
+            raise Machinery('presentation: scalar width requested for %r' % (w,))
+        if side['wk'] == 'int':
+            wa = int(_stored(w[:1], 'int', alt)[0]) if alt else _stored(w[:1], 'int', alt)[0]
+        else:
+            wa = float(w[0]) if alt else np.float64(w[0])
+    else:
+        wa = _stored(w, side['wk'], alt)
+    return centres, wa, np.array(w, dtype=float)
+
+
+def pres_call(vec, x0, pn, pt, fk, ek, perm, alt, cls_of=None):
+    FluxBinner = cls_of or _binners()[0]
+    U = vec['U']
+    c, w, _ = pres_side(vec['nat'], U, x0, pn, alt)
+    tc, tw, twf = pres_side(vec['tgt'], U, x0, pt, alt)
+    p = np.array(perm)
+    f = _stored(vec['f'], fk, alt)[p]
+    e = _stored(vec['e'], ek, alt)[p]
+    if w is not None and hasattr(w, '__len__'):
+        w = w[p]
+    wn, sp, err, wid = FluxBinner(tc, tw).bindown(c[p], f, grid_width=w, error=e)
+    order = np.argsort(np.asarray(tc, dtype=float))
+    grid_ok = (np.shape(wn) == np.shape(tc) and np.shape(wid) == np.shape(tc) and
+               np.array_equal(np.asarray(wn, dtype=float), np.asarray(tc, dtype=float)[order]) and
+               np.array_equal(np.asarray(wid, dtype=float), twf[order]))
+    return dict(sp=np.atleast_1d(np.asarray(sp, dtype=float)), err=None if err is None else np.atleast_1d(np.asarray(err, dtype=float)),
+                rows=None, grid_ok=grid_ok)
+
+
+def pres_cls(pn, pt, fk, ek, perm):
+    return 'pres:t=%s/%s/%s:n=%s/%s/%s:f=%s:e=%s:%s' % (pt['ck'], pt['wf'], pt['wk'], pn['ck'], pn['wf'], pn['wk'], fk, ek,
+                                                       'sorted' if list(perm) == sorted(perm) else 'shuffled')
+
+
+def judge_pres(ctx, vec, x0, pn, pt, fk, ek, perm, alt):
+    cls = pres_cls(pn, pt, fk, ek, perm)
+    meta = dict(vec, x0=x0, pn=pn, pt=pt, fk=fk, ek=ek, perm=list(perm), alt=bool(alt))
+    try:
+        got = pres_call(vec, x0, pn, pt, fk, ek, perm, alt)
+    except Machinery:
+        raise
+    except Exception as ex:   # a legal presentation of bins inside the quantifier: a crash is a violation
+        ctx.verdict('overlap_weighted_mean', False, cls=cls, detail='exception %r' % ex, vector=meta)
+        return
+    compare_flux(ctx, vec, got, cls, meta)
+
+
+def pres_combos(vec, rng):
+    """the presentations replayed for one vector: every legal target side, every legal native side, TLC's witness of
+    each slip the vector exposes, one random combination; storage of spectrum / noise cycles through all four"""
+    out, k = [], rng.randrange(4)
+    for pt in vec['lt']:
+        out.append((PLAIN, pt, VALKINDS[k % 4]))
+        k += 1
+    for pn in vec['ln']:
+        if pn != PLAIN:
+            out.append((pn, PLAIN, VALKINDS[k % 4]))
+            k += 1
+    for slip in ('widthlike', 'outlike'):
+        for wit in vec[slip]:
+            out.append((wit['n'], wit['t'], (wit['fk'], wit['ek'])))
+    if len(vec['ln']) > 1 and len(vec['lt']) > 1:
+        out.append((rng.choice(vec['ln']), rng.choice(vec['lt']), rng.choice(VALKINDS)))
+    return out
+
+
+def pres_mutant(slip):
+    """the slips of Binning.tla part 4 on top of the real FluxBinner (canary only)"""
+    FluxBinner = _binners()[0]
+    if slip == 'widthlike':
+        class M(FluxBinner):
+            def __init__(self, wngrid, wngrid_width=None):
+                if wngrid_width is not None and not hasattr(wngrid_width, '__len__'):
+                    wngrid_width = np.full_like(wngrid, wngrid_width)
+                super().__init__(wngrid, wngrid_width)
+
+            def bindown(self, wngrid, spectrum, grid_width=None, error=None):
+                if grid_width is not None and not hasattr(grid_width, '__len__'):
+                    grid_width = np.full_like(wngrid, grid_width)
+                return super().bindown(wngrid, spectrum, grid_width=grid_width, error=error)
+    else:
+        class M(FluxBinner):
+            def bindown(self, wngrid, spectrum, grid_width=None, error=None):
+                wn, sp, err, wid = super().bindown(wngrid, spectrum, grid_width=grid_width, error=error)
+                return wn, sp.astype(spectrum.dtype), None if err is None else err.astype(error.dtype), wid
+    return M
+
+
+class _Probe:
+    """collects verdicts without reporting them (canary runs)"""
+    def __init__(self):
+        self.bad = 0
+
+    def verdict(self, clause, ok, **kw):
+        self.bad += 0 if ok else 1
+
+
+def run_presentation(ctx, vecs, rng):
+    wit = dict(widthlike=[], outlike=[])
+    ncalls = 0
+    for i, vec in enumerate(vecs):
+        x0 = PRES_X0[i % len(PRES_X0)]
+        n = len(vec['nat'])
+        for j, (pn, pt, (fk, ek)) in enumerate(pres_combos(vec, rng)):
+            perm = list(range(n))
+            if (i + j) % 2:
+                rng.shuffle(perm)
+            judge_pres(ctx, vec, x0, pn, pt, fk, ek, perm, (i + j) % 3 == 0)
+            ncalls += 1
+        for slip in wit:
+            if vec[slip]:
+                wit[slip].append((vec, x0))
+    for slip, ws in wit.items():      # non-vacuity 1: TLC finds inputs on which each slip shows (expected counterexamples)
+        if not ws:
+            raise Machinery('presentation: no exported vector exposes the slip %r' % slip)
+    ctx.note('presentation: %d vectors, %d real calls; TLC exposes the slip "widthlike" on %d and "outlike" on %d of them'
+             % (len(vecs), ncalls, len(wit['widthlike']), len(wit['outlike'])))
+    ctx.add_sample(dict(presentation_vector=vecs[len(vecs) // 2]))
+    if ctx.has_violations():
+        return
+    # non-vacuity 2 (canary): the binding reports each slip, implemented on top of the real FluxBinner, on TLC's witnesses
+    for slip, ws in wit.items():
+        M = pres_mutant(slip)
+        for vec, x0 in ws[::max(1, len(ws) // 10)][:10]:
+            w = vec[slip][0]
+            probe = _Probe()
+            try:
+                got = pres_call(vec, x0, w['n'], w['t'], w['fk'], w['ek'], list(range(len(vec['nat']))), False, cls_of=M)
+                compare_flux(probe, vec, got, '', None)
+            except Machinery:
+                raise
+            except Exception:
+                probe.bad += 1
+            if not probe.bad:
+                raise Machinery('canary accepted: the slip %r on top of the real FluxBinner passes TLC\'s witness %r' % (slip, w))
+
+
 def one_vector(ctx, v):
+    if v['kind'] == 'pres':
+        judge_pres(ctx, v, v['x0'], v['pn'], v['pt'], v['fk'], v['ek'], v['perm'], v['alt'])
+        return
+    if v['kind'] == 'calls':
+        replay_calls(ctx, v)
+        return
     lat = tuple(v['lat'])
     if v['kind'] == 'flux':
         judge_flux(ctx, v, lat, v['perm'], v['mode'])
@@ -601,6 +797,94 @@ def run_traces(ctx, nval, nrel, nhist):
         raise Machinery('canary accepted: trace validation is vacuous (%r)' % (bad2,))
 
 
+# ----------------------------------------------------------------------------
+# TLC runs of the presentation / call-history specs (started first, collected when needed)
+# ----------------------------------------------------------------------------
+PRES_SLIPS = ('widthlike', 'outlike')
+CALL_MUTANTS = (('sqinplace', 'RefuteSqInPlace'), ('sortargs', 'RefuteSortArgs'), ('sortctor', 'RefuteSortCtor'),
+                ('outbuffer', 'RefuteOutBuffer'))
+
+
+def start_background(ctx):
+    q = ctx.tier == 'quick'
+    pool = ThreadPoolExecutor(max_workers=2)
+    jobs = {}
+
+    def sub(label, module, cfg, **kw):
+        jobs[label] = pool.submit(run_tlc, module, cfg, **kw)
+    sub('presentation-export', 'MC_BinPres', 'EX_BinPres_%s.cfg' % ctx.tier, workers=1)
+    sub('calls-pairs', 'MC_BinCalls', 'EX_BinCalls_pairs%s.cfg' % ('' if q else '_thorough'), workers=1)
+    if not q:
+        # explicit expected counterexamples (the quick tier takes them from the export runs: TLC lists, per exported input /
+        # sequence, the slips and design mutants it exposes, and the driver insists that each is exposed)
+        for v in PRES_SLIPS:
+            sub('refute-presentation-' + v, 'MC_BinPres', 'MC_BinPres_ref_%s.cfg' % v, workers=1, allow_violation=True)
+        for m, _ in CALL_MUTANTS:
+            sub('refute-calls-' + m, 'MC_BinCalls', 'MC_BinCalls_ref_%s.cfg' % m, workers=1, allow_violation=True)
+        sub('calls-design', 'MC_BinCalls', 'MC_BinCalls_design.cfg', workers=2)
+        sub('calls-walks', 'MC_BinCalls', 'SIM_BinCalls.cfg', workers=1, simulate='num=600', depth=8, seed=ctx.seed + 5)
+    pool.shutdown(wait=False)
+    return jobs
+
+
+def collect(ctx, bg, label, counts=True, refuted=None):
+    res = bg[label].result()
+    ctx.add_tlc(label, res, counts=counts and refuted is None)
+    if refuted is not None:
+        if res.violated != refuted:
+            raise Machinery('expected TLC to refute %s in %s, got %r' % (refuted, label, res.violated))
+    elif res.violated:
+        raise Machinery('spec run %s violates %s\n%s' % (label, res.violated, res.error_trace))
+    elif res.distinct == 0 and counts:
+        raise Machinery('TLC reported 0 states for %s' % label)
+    return res
+
+
+def collect_presentation(ctx, bg):
+    res = collect(ctx, bg, 'presentation-export')
+    vecs = dedupe(res.tagged('PVEC'))
+    if not vecs:
+        raise Machinery('no presentation vectors exported')
+    if ctx.tier != 'quick':
+        for v in PRES_SLIPS:
+            collect(ctx, bg, 'refute-presentation-' + v, refuted='PresRefinesDef')
+    return vecs
+
+
+def run_call_histories(ctx, bg):
+    q = ctx.tier == 'quick'
+    pairs = collect(ctx, bg, 'calls-pairs')
+    walks = None
+    if not q:
+        for m, inv in CALL_MUTANTS:
+            collect(ctx, bg, 'refute-calls-' + m, refuted=inv)
+        collect(ctx, bg, 'calls-design')
+        walks = collect(ctx, bg, 'calls-walks', counts=False)
+        if len(walks.tagged('CWALK')) < 300:
+            raise Machinery('TLC produced only %d call sequences' % len(walks.tagged('CWALK')))
+    alph, ws = BC.load(pairs, walks, ctx.seed)
+    exposing = BC.run_walks(ctx, alph, ws)
+    BC.canary(ctx, alph, ws, exposing)
+    ctx.note('call histories: %d sequences (%d exhaustive pairs) on %d kinds x stored orders; design mutants exposed by TLC: %s'
+             % (len(ws), sum(1 for w in ws if w['src'] == 'pairs'), len(alph),
+                ', '.join('%s/%s:%d' % (k[0], k[1], len(v)) for k, v in sorted(exposing.items()))))
+
+
+_CALLS_ALPH = {}
+
+
+def replay_calls(ctx, vec):
+    def alph_for(kind, ord_, lat):
+        if 'rows' not in _CALLS_ALPH:
+            res = run_tlc('MC_BinCalls', 'EX_BinCalls_table.cfg', workers=1)      # the operation tables only (no sequences)
+            _CALLS_ALPH['rows'] = res.tagged('COPS')
+        for r in _CALLS_ALPH['rows']:
+            if r['kind'] == kind and r['ord'] == ord_:
+                return BC.Alphabet(r, lat)
+        raise Machinery('no operation table for %s/%s' % (kind, ord_))
+    BC.replay_vector(ctx, vec, alph_for)
+
+
 def dedupe(vecs):
     seen, out = set(), []
     for v in vecs:
@@ -620,13 +904,21 @@ def run(ctx):
                     'multi: 2 targets, all three binners' if q else
                     'geo: <=4 native bins on 0..8, one target on -2..10; val: <=4 bins on 0..6, values {0,1,3}; multi: 2-3 targets'),
         vectors='all native permutations (<=6; 24 sampled to %d) x 3 dyadic lattices, 1-D+errors, 2-D, derived widths / bin_model on uniform grids' % (6 if q else 24),
-        traces='linear / log / constant-R / jittered grids of 20-400 points, 2-40 target bins, windows <= 14 native bins')
+        traces='linear / log / constant-R / jittered grids of 20-400 points, 2-40 target bins, windows <= 14 native bins',
+        presentation=('2 native bins / 1-2 target bins on a lattice with 4 points per storage unit' if q else '2-3 native bins / 1-2 target bins, 4 lattice points per storage unit') +
+                     '; every legal storage type (int / float) of centres, widths, spectrum, noise and every legal form of the widths (array / scalar / omitted)',
+        call_histories=('every pair of calls sharing a native grid or the long-lived binner' if q else 'every pair of calls on 3 grids + 600 random sequences of 5 calls') +
+                       '; flux / histogram / identity binner; caller arrays stored ascending / descending / mixed; arrays themselves or re-arranged copies; '
+                       'long-lived or newly built binner; widths explicit / derived; noise; 1-D / 2-D')
     ctx.assumptions = [
         'numpy float64 arithmetic on dyadic lattice coordinates is exact for centres, widths and overlaps',
         'target bins have distinct centres and positive width; native bins ordered and non-overlapping (property quantifier)',
         'zero-length contact between a target bin and the native grid: 0 or NaN accepted (statement undecided)',
         'derived widths on non-uniform grids: only constant / bounds / linear / order clauses (two readings of the native bin)',
-        'TLC + CommunityModules Json/IOUtils; harness window selection is re-checked by TLC (WindowComplete)']
+        'TLC + CommunityModules Json/IOUtils; harness window selection is re-checked by TLC (WindowComplete)',
+        'a call does not write to the arrays it is handed and later calls see the values the caller supplied (the statement says what binning RETURNS for them)',
+        'integer storage of a grid / spectrum is a presentation of the same numbers; float32 is not exercised']
+    bg = start_background(ctx)       # TLC runs of the presentation / call-history specs, concurrent with the ones below
     for c in ('geo', 'val', 'multi'):
         ctx.check_spec('exhaustive-' + c, 'MC_Binning', 'MC_Binning_%s_%s.cfg' % (c, t))
     ctx.exhaustive = True
@@ -653,6 +945,8 @@ def run(ctx):
     run_multi_vectors(ctx, vm, rng)
     ctx.add_sample(dict(vector=v4[len(v4) // 2]))
     ctx.note('vectors: %d flux (<=3 bins), %d flux (4 bins), %d multi-target/simple/native' % (len(v3), len(v4), len(vm)))
+    run_presentation(ctx, collect_presentation(ctx, bg), rng)
+    run_call_histories(ctx, bg)
     if q:
         run_traces(ctx, 60, 40, 60)
     else:
